@@ -513,6 +513,175 @@ pub fn family(name: &str, k: usize) -> Vec<Vec<u8>> {
             }
             vec![t.wire(), d]
         }
+        "v9-data-flowsets" => {
+            // k data flowsets of one record each under a cached template
+            let t = V9Pkt { count: 1, sys_up_time: 0, unix_secs: 0, seq: 0, source_id: 0, flowsets: vec![V9FlowSet::Template { templates: vec![V9Tmpl { id: 256, fields: vec![(1, 4)] }], padding: vec![] }] };
+            let mut d = v9hdr(k as u16);
+            for _ in 0..k {
+                p16(&mut d, 256);
+                p16(&mut d, 8);
+                p32(&mut d, 7);
+            }
+            vec![t.wire(), d]
+        }
+        "v9-templates-distinct-ids" => {
+            // one template flowset defining k templates with k distinct ids (cache growth)
+            let mut d = v9hdr(1);
+            p16(&mut d, 0);
+            p16(&mut d, (4 + 8 * k) as u16);
+            for i in 0..k {
+                p16(&mut d, 256 + i as u16);
+                p16(&mut d, 1);
+                p16(&mut d, 1);
+                p16(&mut d, 4);
+            }
+            vec![d]
+        }
+        "v9-options-templates-per-flowset" => {
+            let mut d = v9hdr(1);
+            p16(&mut d, 1);
+            p16(&mut d, (4 + 14 * k + (4 - (4 + 14 * k) % 4) % 4) as u16);
+            for i in 0..k {
+                p16(&mut d, 256 + (i % 8) as u16);
+                p16(&mut d, 4);
+                p16(&mut d, 4);
+                p16(&mut d, 1);
+                p16(&mut d, 4);
+                p16(&mut d, 1);
+                p16(&mut d, 4);
+            }
+            d.extend(vec![0u8; (4 - (4 + 14 * k) % 4) % 4]);
+            vec![d]
+        }
+        "ipfix-data-sets" => {
+            // k data sets of one record each in one message under a cached template
+            let t = IpfixMsg { export_time: 0, seq: 0, domain: 0, sets: vec![IpfixSet::Template { records: vec![IpfixTmpl { id: 256, fields: vec![IpfixSpec { type_num: 1, len: 4, enterprise: None }] }], padding: vec![] }] };
+            let mut d = ixhdr(16 + 8 * k);
+            for _ in 0..k {
+                p16(&mut d, 256);
+                p16(&mut d, 8);
+                p32(&mut d, 7);
+            }
+            vec![t.wire(), d]
+        }
+        "ipfix-template-sets-distinct-ids" => {
+            let mut body = vec![];
+            for i in 0..k {
+                p16(&mut body, 2);
+                p16(&mut body, 12);
+                p16(&mut body, 256 + i as u16);
+                p16(&mut body, 1);
+                p16(&mut body, 1);
+                p16(&mut body, 4);
+            }
+            let mut d = ixhdr(16 + body.len());
+            d.extend(body);
+            vec![d]
+        }
+        "ipfix-options-template-sets" => {
+            let mut body = vec![];
+            for i in 0..k {
+                p16(&mut body, 3);
+                p16(&mut body, 20);
+                p16(&mut body, 256 + (i % 8) as u16);
+                p16(&mut body, 2);
+                p16(&mut body, 1);
+                p16(&mut body, 1);
+                p16(&mut body, 4);
+                p16(&mut body, 2);
+                p16(&mut body, 2);
+                p16(&mut body, 0);
+            }
+            let mut d = ixhdr(16 + body.len());
+            d.extend(body);
+            vec![d]
+        }
+        "ipfix-options-records" => {
+            // options template (one scope field, one option field), then k records of 6 bytes
+            let mut t = ixhdr(16 + 18);
+            p16(&mut t, 3);
+            p16(&mut t, 18);
+            p16(&mut t, 256);
+            p16(&mut t, 2);
+            p16(&mut t, 1);
+            p16(&mut t, 1);
+            p16(&mut t, 4);
+            p16(&mut t, 2);
+            p16(&mut t, 2);
+            p16(&mut t, 0);
+            let mut d = ixhdr(16 + 4 + 6 * k);
+            p16(&mut d, 256);
+            p16(&mut d, (4 + 6 * k) as u16);
+            d.extend(vec![1u8; 6 * k]);
+            vec![t, d]
+        }
+        "ipfix-enterprise-fields-per-template" => {
+            let mut t = ixhdr(16 + 8 + 8 * k);
+            p16(&mut t, 2);
+            p16(&mut t, (8 + 8 * k) as u16);
+            p16(&mut t, 256);
+            p16(&mut t, k as u16);
+            for i in 0..k {
+                p16(&mut t, 0x8000 | (1 + (i % 400) as u16));
+                p16(&mut t, 1);
+                p32(&mut t, 9 + (i % 7) as u32);
+            }
+            let mut d = ixhdr(16 + 4 + k);
+            p16(&mut d, 256);
+            p16(&mut d, (4 + k) as u16);
+            d.extend(vec![1u8; k]);
+            vec![t, d]
+        }
+        "ipfix-wide-records" => {
+            // template with 64 four-byte fields, k records of 256 bytes
+            let nf = 64usize;
+            let mut t = ixhdr(16 + 8 + 4 * nf);
+            p16(&mut t, 2);
+            p16(&mut t, (8 + 4 * nf) as u16);
+            p16(&mut t, 256);
+            p16(&mut t, nf as u16);
+            for i in 0..nf {
+                p16(&mut t, 1 + (i % 2) as u16);
+                p16(&mut t, 4);
+            }
+            let mut d = ixhdr(16 + 4 + 4 * nf * k);
+            p16(&mut d, 256);
+            p16(&mut d, (4 + 4 * nf * k) as u16);
+            d.extend(vec![1u8; 4 * nf * k]);
+            vec![t, d]
+        }
+        "v9-wide-records" => {
+            let nf = 64usize;
+            let mut t = v9hdr(1);
+            p16(&mut t, 0);
+            p16(&mut t, (8 + 4 * nf) as u16);
+            p16(&mut t, 256);
+            p16(&mut t, nf as u16);
+            for i in 0..nf {
+                p16(&mut t, 1 + (i % 2) as u16);
+                p16(&mut t, 4);
+            }
+            let mut d = v9hdr(1);
+            p16(&mut d, 256);
+            p16(&mut d, (4 + 4 * nf * k) as u16);
+            d.extend(vec![1u8; 4 * nf * k]);
+            vec![t, d]
+        }
+        "mixed-version-chain" => {
+            // k groups of (V5 header, V7 header, V9 header, IPFIX header)
+            let mut d = vec![];
+            for _ in 0..k {
+                p16(&mut d, 5);
+                p16(&mut d, 0);
+                d.extend(vec![0u8; 20]);
+                p16(&mut d, 7);
+                p16(&mut d, 0);
+                d.extend(vec![0u8; 20]);
+                d.extend(v9hdr(0));
+                d.extend(ixhdr(16));
+            }
+            vec![d]
+        }
         _ => vec![],
     }
 }
@@ -539,6 +708,17 @@ pub const FAMILIES: &[(&str, usize)] = &[
     ("ipfix-messages-with-data", 1024),
     ("ipfix-announced-field-count", 4096),
     ("v9-announced-scope-lengths", 8192),
+    ("v9-data-flowsets", 4096),
+    ("v9-templates-distinct-ids", 4096),
+    ("v9-options-templates-per-flowset", 4096),
+    ("ipfix-data-sets", 4096),
+    ("ipfix-template-sets-distinct-ids", 4096),
+    ("ipfix-options-template-sets", 2048),
+    ("ipfix-options-records", 8192),
+    ("ipfix-enterprise-fields-per-template", 4096),
+    ("ipfix-wide-records", 128),
+    ("v9-wide-records", 128),
+    ("mixed-version-chain", 512),
 ];
 
 /// returns (requested, peak, tails) of the last call of the family member of size k
@@ -814,4 +994,55 @@ pub fn run(w: &mut W) {
         w.rep.max(&format!("max.{}", k), *v);
     }
     let _ = Ending::Clean;
+}
+
+// ---------------------------------------------------------------------------------------------
+// M-instr: instruction counts of parse_bytes under callgrind (the CPU-side doubling monitor).
+// `nfverif ircount <family>` executes every doubling member k = 16..max of one family; the last
+// buffer of each member goes through `nfverif_measured`, the function callgrind is told to zero
+// its counters before and dump them after (bin/check reads one dump per member, in call order).
+// ---------------------------------------------------------------------------------------------
+
+#[no_mangle]
+#[inline(never)]
+pub fn nfverif_measured(p: &mut NetflowParser, buf: &[u8]) -> Vec<NetflowPacket> {
+    p.parse_bytes(buf)
+}
+
+pub fn ircount(args: &[String]) {
+    let name = args.first().map(|s| s.as_str()).unwrap_or("");
+    let maxk = match FAMILIES.iter().find(|f| f.0 == name) {
+        Some(f) => f.1,
+        None => {
+            eprintln!("unknown family {}", name);
+            std::process::exit(2);
+        }
+    };
+    let mut k = 16usize;
+    while k <= maxk {
+        let bufs = family(name, k);
+        let mut p = NetflowParser::default();
+        for b in &bufs[..bufs.len() - 1] {
+            let _ = p.parse_bytes(b);
+        }
+        let last = &bufs[bufs.len() - 1];
+        let res = std::hint::black_box(nfverif_measured(&mut p, std::hint::black_box(last)));
+        println!("{{\"family\":\"{}\",\"k\":{},\"n\":{},\"elements\":{},\"units\":{}}}", name, k, last.len(), res.len(), result_units(&res));
+        drop(res);
+        k *= 2;
+    }
+}
+
+/// `nfverif families`: the doubling family list as JSON; `nfverif famops <family> <k>`: the raw
+/// operations of one member as a replay object.
+pub fn families_json() {
+    let v: Vec<serde_json::Value> = FAMILIES.iter().map(|f| json!({"family": f.0, "max_k": f.1})).collect();
+    println!("{}", serde_json::Value::Array(v));
+}
+
+pub fn famops(args: &[String]) {
+    let name = args.first().map(|s| s.as_str()).unwrap_or("");
+    let k: usize = args.get(1).and_then(|s| s.parse().ok()).unwrap_or(16);
+    let ops: Vec<serde_json::Value> = family(name, k).iter().map(|b| json!({"parser": 0, "hex": crate::util::hex(b)})).collect();
+    println!("{}", json!({"parsers": [[5, 7, 9, 10]], "ops": ops}));
 }
